@@ -1,0 +1,14 @@
+//go:build verif
+
+package radius
+
+// VerifC08Hook, when set, is called at every verifPoint of accounting.go with
+// the point's name (check C08: crash/outage injection at persistence and
+// transmit steps). It returns nothing and therefore cannot change control flow.
+var VerifC08Hook func(name string)
+
+func verifPoint(name string) {
+	if h := VerifC08Hook; h != nil {
+		h(name)
+	}
+}
